@@ -27,14 +27,33 @@ THEOREMS = [
     "PV.C12.C12_dat_model",
     "PV.C12.hankDatOfR_entry",
     "PV.C12.hankYs_rows",
+    # data-driven clause over the model functions (hankYs / hankYp / hankYf / hankDat) for a recorded QR factor of any
+    # height: layout for every record length, Gram identity (generalised inverse, full-rank past data), short records,
+    # and the kernel-checked instance showing the full-rank hypothesis cannot be dropped
+    "PV.C12.C12_shape_dat_rec",
+    "PV.C12.C12_shape_dat_numpy",
+    "PV.C12.hankDat_eq_hankDatOfR",
+    "PV.C12.C12_dat_gram_span_model",
+    "PV.C12.C12_dat_gram_model",
+    "PV.C12.C12_dat_gram_short",
+    "PV.C12.C12_dat_rank_needed",
+    "PV.C12.exA_qr",
+    "PV.C12.exB_qr",
 ]
 RULE = (
     "correspondence: random (channels 1..5, reference subset, br 1..5, length <= 60) records with float or small-integer "
     "samples sent to the Lean model as exact rationals, compared with ssi.build_hank at 1e-12 (cov_mm, cov_R) / Gram "
     "identity at 1e-9 (dat); oracle: unit-impulse pairs (lag/weight/sign structure), bilinearity, independent numpy "
-    "construction. distinct = distinct (method, l, r, br, Ndat) shapes"
+    "construction. distinct = distinct (method, l, r, br, Ndat) shapes. build_hank[dat-recorded]: np.linalg.qr wrapped, its "
+    "argument compared EXACTLY with the model's stacked matrix hankYs (times the float 1/N**0.5), its recorded output R "
+    "handed to the model's hankDat and compared EXACTLY (shape and entries) with the returned matrix, for every record "
+    "length (fewer samples than past rows, between past and all rows, more), duplicated / constant reference channels"
 )
-EXTRA_TRUSTED = ["np.linalg.qr contract (orthonormal Q, triangular R) for the 'dat' method; float N**0.5"]
+EXTRA_TRUSTED = [
+    "np.linalg.qr contract (orthonormal Q, triangular R) for the 'dat' method = PV.C12.QrRec; on every recorded output the "
+    "harness checks the part that can be seen without Q: shape min(N-1, (r+l)(br+1)) x (r+l)(br+1), zeros below the "
+    "diagonal, R^T R = Ys Ys^T (ctx.contract qr_r); float N**0.5"
+]
 ASSUMPTIONS = ["numpy slicing/vstack/dot semantics are mirrored by Mat.colSlice/vstackN/mulT (validated by the correspondence)"]
 
 
@@ -89,12 +108,15 @@ def correspondence(ctx):
                 f"build_hank[{method}]", err <= 1e-12, inp | {"method": method}, M, H.tolist(), (method, l, r, p, Nd)
             )
             ctx.count(f"corr_{method}")
-        # data-driven: Gram identity through the model's exact Gram matrix of the stacked data
-        if Nd - 2 * p - 2 >= (r + l) * (p + 1) + 1:
+        # data-driven: Gram identity through the model's exact Gram matrix of the stacked data (C12_dat_gram_model: any
+        # record with at least as many columns as past rows; shorter ones: _corr_dat_recorded)
+        if Nd - 2 * p - 2 >= r * (p + 1):
             H, _ = bh(Y, Yref, p, "dat")
             G = np.array(flmat(ctx.model("hank_ys_gram", **inp)))
             a = r * (p + 1)
             PP, FP = G[:a, :a], G[a:, :a]
+            if Nd - 2 * p - 2 < (r + l) * (p + 1) + 1:
+                ctx.count("corr_dat_fewer_columns_than_rows")
             if np.linalg.cond(PP) < 1e6:
                 proj = FP @ np.linalg.solve(PP, FP.T)
                 ok = H.shape == ((p + 1) * l, (p + 1) * r) and max_rel_err(H @ H.T, proj) <= 1e-8
@@ -104,6 +126,115 @@ def correspondence(ctx):
                 ctx.skipped += 1
         if k == 0:
             ctx.sample({"l": l, "r": r, "ref": ref, "p": p, "Ndat": Nd, "Y_row0_head": Y[0, :5].tolist()})
+    _corr_dat_recorded(ctx, bh)
+
+
+def _corr_dat_recorded(ctx, bh):
+    """data-driven method with np.linalg.qr wrapped: (i) the matrix handed to it is the transpose of the model's stacked
+    matrix hankYs, (ii) the returned matrix is the model's hankDat of the RECORDED factor (shape and entries, exactly:
+    the sign convention of the factor is whatever was recorded), (iii) the recorded factor satisfies the visible part of
+    the contract QrRec, (iv) for records with no more columns than past rows the Gram matrix is that of the future
+    outputs (C12_dat_gram_short).  Every regime of the record length n = N-1 against a = r(br+1), a+b = (r+l)(br+1)."""
+    rng = ctx.rng
+    real_qr = np.linalg.qr
+    for k in range(ctx.n(40, 600)):
+        g = ctx.nprng()
+        l = rng.randint(1, 4)
+        p = rng.randint(1, 4)
+        kind = rng.choice(["subset", "subset", "independent", "duplicate", "constant"])
+        r = rng.randint(1, l)
+        a, b = r * (p + 1), l * (p + 1)
+        regime = ["short", "n=a", "between", "n=a+b", "long"][k % 5]
+        n = {
+            "short": rng.randint(1, max(1, a - 1)),
+            "n=a": a,
+            "between": rng.randint(a + 1, a + b - 1),
+            "n=a+b": a + b,
+            "long": a + b + rng.randint(1, 12),
+        }[regime]
+        Nd = n + 2 * p + 2
+        if rng.random() < 0.3:
+            Y = g.integers(-9, 10, size=(l, Nd)).astype(rng.choice([float, np.int32, np.int64]))
+        else:
+            Y = g.standard_normal((l, Nd)) * rng.choice([1.0, 1.0, 1e-6, 1e6])
+        ref = rng.sample(range(l), r)
+        Yref = Y[ref, :]
+        if kind == "independent":
+            Yref = g.standard_normal((r, Nd)) * rng.choice([1.0, 1e-3, 1e3])
+        elif kind == "duplicate" and r >= 2:  # rank-deficient past data: a reference channel listed twice
+            ref[1] = ref[0]
+            Yref = Y[ref, :]
+        elif kind == "constant":  # ... or a reference channel that does not move
+            Yref = np.array(Yref, dtype=float)
+            Yref[0, :] = rng.choice([1.0, 0.0, -2.5])
+        rec = []
+
+        def spy(x, *args, **kw):
+            out = real_qr(x, *args, **kw)
+            rec.append((np.array(x), args, dict(kw), out))
+            return out
+
+        np.linalg.qr = spy
+        try:
+            H, _ = bh(Y, Yref, p, "dat")
+        finally:
+            np.linalg.qr = real_qr
+        key = (regime, l, r, p, n)
+        base = {"Y": Rmat(np.asarray(Y, float)), "Yref": Rmat(np.asarray(Yref, float)), "p": p}
+        one_call = len(rec) == 1 and rec[0][1] == () and rec[0][2] == {"mode": "r"} and isinstance(rec[0][3], np.ndarray)
+        ctx.corr("build_hank[dat-recorded]:qr-call", one_call, base, "one call np.linalg.qr(Ys.T, mode='r')",
+                 [(list(x.shape), list(map(str, ar)), kw) for (x, ar, kw, _) in rec], key)
+        if not one_call:
+            continue
+        X, _, _, Rf = rec[0]
+        # (i) argument = transpose of the model's stacked matrix, scaled by the same float factor
+        N = Nd - 2 * p - 1
+        ys = ctx.model("hank_ys", **base)
+        Ysm = (1 / N**0.5) * np.array(flmat(ys["m"]), dtype=float).reshape(ys["r"], ys["c"])
+        ctx.corr("build_hank[dat-recorded]:Ys", (ys["r"], ys["c"]) == (a + b, n) and X.shape == (n, a + b) and np.array_equal(X.T, Ysm),
+                 base, Ysm.tolist(), X.T.tolist(), key)
+        # (iii) visible part of the contract of the recorded factor
+        kk = min(n, a + b)
+        shape_ok = Rf.shape == (kk, a + b)
+        ctx.corr("build_hank[dat-recorded]:R-shape", shape_ok, base, [kk, a + b], list(Rf.shape), key)
+        if not shape_ok:
+            continue
+        G = X.T @ X
+        gs = max(float(np.abs(np.diag(G)).max()), 1e-300)
+        dn = np.sqrt(np.maximum(np.diag(G), 0.0))
+        dn = np.where(dn > 0, dn, 1.0)
+        # column-wise backward stability of Householder QR: residual of R^T R - Ys Ys^T relative to the two row norms
+        ctx.contract("qr_r", max(float((np.abs(Rf.T @ Rf - G) / np.outer(dn, dn)).max()), float(np.abs(np.tril(Rf, -1)).max()) / np.sqrt(gs)),
+                     1e-12, "R^T R = Ys Ys^T, R upper trapezoidal")
+        # (ii) returned matrix = hankDat of the recorded factor, exactly
+        out = ctx.model("hank_dat_rec", R=Rmat(Rf), nref=r, p=p)
+        M = np.array(flmat(out["m"]), dtype=float).reshape(out["r"], out["c"])
+        ok = H.shape == (out["r"], out["c"]) == (b, min(a, n)) and np.array_equal(H, M)
+        if out["of_r"] is not None:  # the fixed-width model function of the older theorems, where it applies
+            M0 = np.array(flmat(out["of_r"]["m"]), dtype=float).reshape(out["of_r"]["r"], out["of_r"]["c"])
+            ok = ok and M0.shape == H.shape and np.array_equal(H, M0)
+            ctx.count("corr_dat_recorded_hankDatOfR")
+        ok = ok and (out["of_r"] is not None) == (n >= a)
+        ctx.corr("build_hank[dat-recorded]", bool(ok), base | {"R": Rmat(Rf), "nref": r}, {"shape": [out["r"], out["c"]], "m": M.tolist()},
+                 {"shape": list(H.shape), "m": H.tolist()}, key)
+        ctx.count(f"corr_dat_recorded_{regime}")
+        ctx.count(f"corr_dat_recorded_ref_{kind}")
+        # the excluded point of C12_dat_gram_model on the real code (observation, not a comparison): past data with
+        # dependent rows although there are enough columns -> the Gram matrix is NOT that of the projection on the past
+        # reference outputs (C12_dat_rank_needed is the exact instance); counted so that a change of behaviour shows
+        if n > a and np.linalg.matrix_rank(X[:, :a]) < a:
+            Yp_, Yf_ = X[:, :a].T, X[:, a:].T
+            Pg = Yf_ @ np.linalg.pinv(Yp_) @ Yp_ @ Yf_.T
+            gap = float(np.abs(H @ H.T - Pg).max()) / max(float(np.abs(Pg).max()), 1e-300)
+            ctx.count("observed_dat_rank_deficient_past_" + ("gram_is_not_projection" if gap > 1e-6 else "gram_is_projection"))
+        # (iv) short records: Gram matrix of the future outputs themselves, no rank condition
+        if n <= a:
+            FF = G[a:, a:]
+            fs = np.sqrt(np.maximum(np.diag(FF), 0.0))
+            fs = np.where(fs > 0, fs, 1.0)
+            err = float((np.abs(H @ H.T - FF) / np.outer(fs, fs)).max())
+            ctx.dist["margin_dat_short_gram"] = max(ctx.dist.get("margin_dat_short_gram", 0.0), err / 1e-11)
+            ctx.corr("build_hank[dat-short-gram]", err <= 1e-11, base, FF.tolist(), (H @ H.T).tolist(), key)
 
 
 def _indep_mm(Y, Yref, p):
